@@ -688,10 +688,9 @@ def build_unit(unit: Unit, cover=False, prelude_dir=None, skip=()):
         modname = f"i{k}"
         k += 1
         if modname in skip:
-            meta["modules"][modname] = dict(file=item.file, header=item.header, mode="skipped",
-                                            fns=[dict(fn=f_.name, mode="skipped", props=list(f_.props)) for f_ in item.fns],
-                                            lines=[0, -1], label=item.label)
-            continue
+            # isolation: the item does not pass the front end; it is replaced by a contract-carrying stub so that
+            # its callers are still checked against its contract; the item itself stays undecided
+            item = dataclasses.replace(item, mode="stub", proved_in="")
         fn_texts = []
         fn_metas = []
         imp = None
